@@ -128,7 +128,7 @@ func (w *World) injectHostileSlash(l *Link) {
 	case 0:
 		vsc, vk = 0, "zero"
 	case 1:
-		if w.Step > w.Cfg.Steps*3/4 {
+		if w.Step > w.Cfg.Steps/2 {
 			vsc, vk = cur+1000, "never-issued"
 		} else {
 			vsc, vk = cur, "current"
